@@ -647,7 +647,7 @@ func (fc *FnCtx) applyContract(ci *calleeInfo, args []Val, writes map[string]boo
 					for _, p := range fc.modPreds[k] {
 						alts = append(alts, p(""))
 					}
-					fc.oblige("frame", or(alts...), what+" writes package variable "+k, []string{"C14"}, "")
+					fc.oblige("frame", or(alts...), what+" writes package variable "+k, []string{"C13", "C14"}, "")
 				}
 				continue
 			}
@@ -668,7 +668,7 @@ func (fc *FnCtx) applyContract(ci *calleeInfo, args []Val, writes map[string]boo
 					alts = append(alts, p(o))
 				}
 				goal := "(forall ((o!f Int)) " + implies(me.pred(o), or(alts...)) + ")"
-				fc.oblige("frame", goal, what+" writes a region of "+k, []string{"C14"}, "")
+				fc.oblige("frame", goal, what+" writes a region of "+k, []string{"C13", "C14"}, "")
 			}
 		}
 	}
